@@ -20,6 +20,7 @@ import (
 	"go/token"
 	"go/types"
 	"regexp"
+	"slices"
 	"strings"
 
 	"go.uber.org/nilaway/config"
@@ -498,7 +499,7 @@ func newObservedMap(pass *analysishelper.EnhancedPass, files []*ast.File) *Obser
 
 	for _, file := range files {
 		if conf.IsFileInScope(file) {
-			for _, decl := range file.Decls {
+			for _, decl := range declsWithLocalTypes(file) {
 				switch decl := decl.(type) {
 				case *ast.FuncDecl:
 					funcObj := pass.TypesInfo.ObjectOf(decl.Name).(*types.Func)
@@ -561,9 +562,31 @@ func newObservedMap(pass *analysishelper.EnhancedPass, files []*ast.File) *Obser
 								switch typeVal := expr.(type) {
 								case *ast.StructType:
 									for _, field := range typeVal.Fields.List {
+										// The fields of an anonymous struct type nested in the type of this
+										// field, e.g., `in struct{ f *T }` or `in []*struct{ f *T }`, are
+										// declared by this type declaration as well, so their annotations are
+										// read from its docstring too.
+										ast.Inspect(field.Type, func(n ast.Node) bool {
+											if nested, ok := n.(*ast.StructType); ok {
+												handleTypeVal(nested)
+												return false
+											}
+											return true
+										})
 										for _, name := range field.Names {
 											fieldAnnMap[pass.TypesInfo.ObjectOf(name).(*types.Var)] =
 												docNilabilitySet.checkNilability(name.Name, typeOf(field.Type))
+										}
+										if len(field.Names) == 0 {
+											// An embedded field, `T`, `*T`, `pkg.T` or `T[A]`: its name is the
+											// unqualified name of the embedded type, and the identifier of that
+											// type name is the one that defines the field.
+											if name := embeddedFieldIdent(field.Type); name != nil {
+												if fieldObj, ok := pass.TypesInfo.Defs[name].(*types.Var); ok {
+													fieldAnnMap[fieldObj] =
+														docNilabilitySet.checkNilability(name.Name, typeOf(field.Type))
+												}
+											}
 										}
 									}
 								case *ast.InterfaceType:
@@ -704,6 +727,44 @@ func newObservedMap(pass *analysishelper.EnhancedPass, files []*ast.File) *Obser
 		funcCallSiteParamAnnMap: funcCallSiteParamAnnMap,
 		funcCallSiteRetAnnMap:   funcCallSiteRetAnnMap,
 	}
+}
+
+// declsWithLocalTypes returns the top-level declarations of the file, followed by the type
+// declarations made inside function bodies: the fields of a function-local struct type (and the
+// elements of a function-local named deep type) are annotation sites like those of a
+// package-level type, and their annotations are read from the docstring of the local declaration.
+func declsWithLocalTypes(file *ast.File) []ast.Decl {
+	decls := slices.Clone(file.Decls)
+	ast.Inspect(file, func(n ast.Node) bool {
+		if stmt, ok := n.(*ast.DeclStmt); ok {
+			if decl, ok := stmt.Decl.(*ast.GenDecl); ok && decl.Tok == token.TYPE {
+				decls = append(decls, decl)
+			}
+		}
+		return true
+	})
+	return decls
+}
+
+// embeddedFieldIdent returns the identifier naming an embedded field given its type expression
+// (`T`, `*T`, `pkg.T`, `T[A]`, possibly parenthesized), or nil if there is none.
+// nilable(result 0)
+func embeddedFieldIdent(expr ast.Expr) *ast.Ident {
+	switch expr := expr.(type) {
+	case *ast.Ident:
+		return expr
+	case *ast.ParenExpr:
+		return embeddedFieldIdent(expr.X)
+	case *ast.StarExpr:
+		return embeddedFieldIdent(expr.X)
+	case *ast.SelectorExpr:
+		return expr.Sel
+	case *ast.IndexExpr:
+		return embeddedFieldIdent(expr.X)
+	case *ast.IndexListExpr:
+		return embeddedFieldIdent(expr.X)
+	}
+	return nil
 }
 
 func getLineFromPos(pos token.Pos, pass *analysishelper.EnhancedPass) int {
